@@ -9,7 +9,7 @@ FUNCTIONS = ["Traph.__init__", "MemoryStorage.read", "MemoryStorage.write", "Fil
              "FileStorage.__len__", "FileStorage.map", "MemMapStorage.read", "LRUTrieNode.read", "LRUTrieNode.write",
              "Traph.add_webentity_creation_rule", "LinkStore.count_links"]
 REQUIRED = ["twin:outcome", "twin:answer", "stores:trie-bytes", "stores:link-bytes", "mmap:block", "reach:anchored-rule",
-            "reach:overwrite", "reach:long-stem", "reach:op:page", "reach:op:links", "reach:op:we", "reach:op:rule"]
+            "reach:overwrite", "reach:long-stem", "reach:op:page", "reach:op:links", "reach:op:we", "reach:op:rule", "reach:op:clear"]
 OUTSIDE = ["more than 3 write requests", "real OS files and mmap (in-memory file system shim; replays use real files and the real mmap)"]
 
 TPOOL = [POOL4[0], POOL4[1], POOL4[3]]
@@ -23,6 +23,8 @@ def levels(tier):
              "defaults": ["domain"], "anchored": [None, (1, 3, "path1")], "overwrite": [False, True], "rule_patterns": ["path1"]},
             {"name": "typed-n2", "kind": "typed", "n": 2, "alphabet": ["page", "we"], "defaults": ["domain"], "anchored": [(1, 3, "path1")],
              "overwrite": [False], "tpool": [0, 1]},
+            {"name": "clear-n3", "kind": "typed", "n": 3, "alphabet": ["page", "links", "clear"], "links_batch": 1, "defaults": ["domain"],
+             "anchored": [None], "overwrite": [False], "tpool": [0, 1]},
             {"name": "long-n1", "kind": "plain", "pools": [[[74], [74, 1], [1]], [[73], [147], [1, 148]]], "sparse": True, "n": 1,
              "alphabet": ["page", "links", "we", "rule"], "links_batch": 2, "overwrite": [False]},
         ]
